@@ -100,9 +100,12 @@ CLAIMS['C13'] = dict(
          'lower bound of all), Arc.__init__ (n+1 points on the circle at uniform angles, validation), Rotation_Matrix (orthogonal, det 1, '
          '= Rz*Ry*Rx), Wire.rotate/scale/translate (scale includes the radius), Geo_Container.rotate/scale/translate (tagged object or '
          'every object exactly once, bookkeeping for the writer), Helix.__init__ (loop rule: uniform height, point on the linearly tapered '
-         'ellipse, start/end points, validation), the emitting loops of taper1/taper2 and the effective taper minimum max(2.5 r, min). '
-         'BOUNDED stand-in, never counted as proved: the search loops of taper1/taper2 that choose the number of tapered segments '
-         '(growth, limits, mirror); transformation order through main() is a C20 unit.',
+         'ellipse, start/end points, validation), the emitting loops of taper1/taper2 (exactly n chained pieces), the effective taper '
+         'minimum max(2.5 r, min), and for taper1 the growth clause for every n (each piece at least as long as the previous one and at most '
+         '2.1 times as long: inductive invariant over the doubling / steady phases with 2^i as an uninterpreted function) and the mirror '
+         'image for the other end. BOUNDED stand-in, never counted as proved: the search loops of taper1/taper2 that choose the number of '
+         'tapered segments, the min/max limits (taper1 asserts them at run time) and the growth rule of taper2 (both ends); transformation '
+         'order through main() is a C20 unit.',
     note='level "other" because part of the property (taper search loops) is bounded only; trig/sqrt axioms; polynomial identities under '
          'cos^2+sin^2=1 by z3-checked certificates; floats as reals',
     design_ref='DESIGN.md §5 C13')
